@@ -303,6 +303,18 @@ def _op_bvp(ctx, op, state):
             if not np.isfinite(db) or db > 1e-9:
                 ctx.violate("batch-size", "bvp", sig, f"the solution at the same points differs by {db:.3g} between a call with {nbig} points and a call with {len(sel)} of them")
         ctx.probes.hit("solution-evaluated-at-%d-points" % nbig)
+    if (bseed + ctx.step) % 7 == 3:
+        # single-precision evaluation points: the same positions as float64 give the same values (to single precision)
+        x32 = np.linspace(min(a, b), max(a, b), 9)[1:-1].astype(np.float32)
+        o32 = _outcome(lambda: np.atleast_2d(np.asarray(sol(x32.copy()), dtype=float)))
+        o64 = _outcome(lambda: np.atleast_2d(np.asarray(sol(x32.astype(np.float64)), dtype=float)))
+        if o32[0] == "raise" and o64[0] == "ok":
+            ctx.violate("points-dtype", "bvp", f"{sig}:raise", f"the solution callable raised {o32[1]!r} for float32 evaluation points")
+        elif o32[0] == "ok" and o64[0] == "ok" and o32[1].shape == o64[1].shape:
+            d32 = float(np.max(np.abs(o32[1] - o64[1]))) / max(1.0, float(np.max(np.abs(o64[1]))))
+            if not np.isfinite(d32) or d32 > 1e-3:
+                ctx.violate("points-dtype", "bvp", sig, f"the solution at the same positions differs by {d32:.3g} between float32 and float64 evaluation points")
+        ctx.probes.hit("solution-evaluated-at-float32-points")
     if not derivs:
         # a scalar point must give the same value as a one-element array (the closure has a branch for it)
         xs = float(xc[7])
